@@ -74,6 +74,16 @@ def _proj(v, i):
     return ("call", "get<%d>" % i, (v,))
 
 
+def _proj_init(v, i):
+    """i-th initialiser of a brace-initialised aggregate value, pushed through ite; None if v is not of that shape"""
+    if isinstance(v, tuple) and len(v) == 4 and v[0] == "ite":
+        a, b = _proj_init(v[2], i), _proj_init(v[3], i)
+        return None if a is None or b is None else ("ite", v[1], a, b)
+    if isinstance(v, tuple) and v[:2] in (("call", "initlist"), ("call", "tuple")) and i < len(v[2]):
+        return v[2][i]
+    return None
+
+
 def mk(op, a, b):
     """constant folding for pure numbers, otherwise a plain node"""
     if a[0] == "num" and b[0] == "num":
@@ -149,6 +159,15 @@ class Evaluator:
     def dims_of(self, t):
         from .rules_c14 import _dims
         return _dims(t)
+
+    def field_position(self, t, name):
+        """position of field `name` in the plain aggregate of type t (declaration order), or None"""
+        t = re.sub(r"^const\s+|\s*&+$", "", str(t or "")).strip()
+        rec = self.F.records.get(t)
+        if rec is None or rec.get("bases"):
+            return None
+        names = [fl["name"] for fl in rec.get("fields", ())]
+        return names.index(name) if name in names else None
 
 
 class Frame:
@@ -228,6 +247,16 @@ class Frame:
                         for fl in rec["fields"][len(v[2]):]:
                             if "init" in fl:
                                 sv.fields[fl["name"]] = self.e(fl["init"])
+                        v = sv
+                    elif self.is_plain_aggregate(d) and not d.get("ref") and isinstance(v, tuple) and v[0] == "ite" \
+                            and _proj_init(v, 0) is not None and self.F.records.get((d.get("t") or "").replace("const ", "").strip()):
+                        # brace-initialised under a ?: / switch (e.g. returned by a helper): field-wise conditional values
+                        sv = StructVal(d["name"], (d.get("t") or "").replace("const ", "").strip())
+                        rec = self.F.records.get(sv.tname)
+                        for i_, fl in enumerate(rec["fields"]):
+                            pv = _proj_init(v, i_)
+                            if pv is not None:
+                                sv.fields[fl["name"]] = pv
                         v = sv
                     elif self.is_plain_aggregate(d) and not d.get("ref") and isinstance(v, tuple) and v[0] == "call" \
                             and str(v[1]).startswith("construct:"):
@@ -660,6 +689,12 @@ class Frame:
                 key = ("field", b, n["sn"])
                 if key in self.heap:
                     return self.heap[key]
+                # a field of an aggregate that was brace-initialised (possibly under ?: / a switch): by position
+                pos = self.ev.field_position(base_n.get("t"), n["sn"])
+                if pos is not None:
+                    pv = _proj_init(b, pos)
+                    if pv is not None:
+                        return pv
                 return key
             return ("member", n.get("n"))
         if k == "ParenExpr":
